@@ -88,3 +88,111 @@ theorem convert_to_hilbert {α : Type} (sx sy k : Nat) (src : List Nat → α) (
     rw [r1, r2]
   exact convert_at _ [sx, sy] src hinj [x, y] ⟨hx, hy, trivial⟩
 end Covfie.C05
+
+namespace Covfie.C05
+variable {α : Type}
+
+theorem fillA_size (idx : List Nat → Nat) (src : List Nat → α) (ts : List (List Nat)) (st : Array α) :
+    (fillA idx src ts st).size = st.size := by
+  unfold fillA
+  induction ts generalizing st with
+  | nil => rfl
+  | cons t ts ih => simp only [List.foldl_cons]; rw [ih]; simp
+
+theorem fillA_get (idx : List Nat → Nat) (src : List Nat → α) (ts : List (List Nat)) (st : Array α)
+    (h : ∀ t ∈ ts, idx t < st.size) (j : Nat) :
+    (fillA idx src ts st)[j]? = fill idx src ts (fun j => st[j]?) j := by
+  unfold fillA fill
+  induction ts generalizing st with
+  | nil => rfl
+  | cons t ts ih =>
+    simp only [List.foldl_cons]
+    rw [ih _ (fun u hu => by simpa using h u (List.mem_cons_of_mem _ hu))]
+    have hst : (fun j => (st.setIfInBounds (idx t) (src t))[j]?) = writeF (fun j => st[j]?) (idx t) (src t) := by
+      funext i
+      have ht := h t List.mem_cons_self
+      simp only [writeF, Array.getElem?_setIfInBounds]
+      by_cases e : i = idx t
+      · subst e; simp [ht]
+      · have e' : idx t ≠ i := fun x => e x.symm
+        simp [e, e']
+    rw [hst]
+
+theorem fill_init (idx : List Nat → Nat) (src : List Nat → α) (ts : List (List Nat)) (g : Nat → Option α) :
+    ∀ (st st' : Nat → Option α), (∀ j, st j = match st' j with | some v => some v | none => g j) →
+    ∀ j, fill idx src ts st j = match fill idx src ts st' j with | some v => some v | none => g j := by
+  unfold fill
+  induction ts with
+  | nil => intro st st' h j; exact h j
+  | cons t ts ih =>
+    intro st st' h j
+    simp only [List.foldl_cons]
+    apply ih
+    intro i
+    simp only [writeF]
+    by_cases e : i = idx t
+    · simp [e]
+    · simp [e, h i]
+
+theorem convertA_size (idx : List Nat → Nat) (sizes : List Nat) (len : Nat) (zero : α) (src : List Nat → α) :
+    (convertA idx sizes len zero src).size = len := by
+  unfold convertA; rw [fillA_size]; simp
+
+/-- **the tabulated storage the driver computes is the storage of the functional model**: cell `j` holds what the fold
+    of writes put there, and the value-initialised `zero` where nothing was written -/
+theorem convertA_get (idx : List Nat → Nat) (sizes : List Nat) (len : Nat) (zero : α) (src : List Nat → α)
+    (h : ∀ c, InBox sizes c → idx c < len) (j : Nat) (hj : j < len) :
+    (convertA idx sizes len zero src)[j]? = some ((convert idx sizes src j).getD zero) := by
+  unfold convertA convert
+  rw [fillA_get idx src (ndMap sizes) _ (fun t ht => by simpa using h t ((mem_ndMap _ _).mp ht))]
+  rw [fill_init idx src (ndMap sizes) (fun j => if j < len then some zero else none) _ (fun _ => none)
+        (fun i => by simp [Array.getElem?_replicate]) j]
+  cases fill idx src (ndMap sizes) (fun _ => none) j <;> simp [hj]
+
+theorem convertA_toList (idx : List Nat → Nat) (sizes : List Nat) (len : Nat) (zero : α) (src : List Nat → α)
+    (h : ∀ c, InBox sizes c → idx c < len) :
+    (convertA idx sizes len zero src).toList = (List.range len).map fun j => (convert idx sizes src j).getD zero := by
+  apply List.ext_getElem?
+  intro j
+  by_cases hj : j < len
+  · rw [Array.getElem?_toList, convertA_get idx sizes len zero src h j hj]
+    simp [hj]
+  · have : (convertA idx sizes len zero src).toList.length = len := by simp [convertA_size]
+    rw [List.getElem?_eq_none (by omega), List.getElem?_eq_none (by simp; omega)]
+end Covfie.C05
+
+namespace Covfie.C05
+variable {α : Type}
+theorem fillA_congr (idx : List Nat → Nat) (src src' : List Nat → α) (ts : List (List Nat)) (st : Array α)
+    (h : ∀ t ∈ ts, src t = src' t) : fillA idx src ts st = fillA idx src' ts st := by
+  unfold fillA
+  induction ts generalizing st with
+  | nil => rfl
+  | cons t ts ih =>
+    simp only [List.foldl_cons]
+    rw [h t List.mem_cons_self]
+    exact ih _ (fun u hu => h u (List.mem_cons_of_mem _ hu))
+
+/-- reading the converted storage through the target layout gives the source's value (tabulated form of `convert_at`) -/
+theorem convertA_at (idx : List Nat → Nat) (sizes : List Nat) (len : Nat) (zero : α) (src : List Nat → α)
+    (h : ∀ c, InBox sizes c → idx c < len)
+    (hinj : ∀ c c', InBox sizes c → InBox sizes c' → idx c = idx c' → c = c')
+    (c : List Nat) (hc : InBox sizes c) : (convertA idx sizes len zero src)[idx c]?.getD zero = src c := by
+  rw [convertA_get idx sizes len zero src h (idx c) (h c hc), convert_at idx sizes src hinj c hc]; rfl
+
+/-- **converting back reproduces the original storage, cell for cell** (including the value-initialised cells no
+    coordinate maps to), for any source layout `idx₁` and any injective in-range target layout `idx₂` -/
+theorem convert_back_storage (idx₁ idx₂ : List Nat → Nat) (sizes : List Nat) (len₁ len₂ : Nat) (zero : α) (f : List Nat → α)
+    (h₂ : ∀ c, InBox sizes c → idx₂ c < len₂)
+    (inj₂ : ∀ c c', InBox sizes c → InBox sizes c' → idx₂ c = idx₂ c' → c = c') :
+    convertA idx₁ sizes len₁ zero (fun t => (convertA idx₂ sizes len₂ zero f)[idx₂ t]?.getD zero)
+      = convertA idx₁ sizes len₁ zero f := by
+  unfold convertA
+  apply fillA_congr
+  intro t ht
+  exact convertA_at idx₂ sizes len₂ zero f h₂ inj₂ t ((mem_ndMap _ _).mp ht)
+
+/-- the configuration (extents) is carried over unchanged and the new storage has exactly the allocated length -/
+theorem convert_config (idx : List Nat → Nat) (sizes : List Nat) (len : Nat) (zero : α) (src : List Nat → α) :
+    (sizes, (convertA idx sizes len zero src).size) = (sizes, len) := by rw [convertA_size]
+end Covfie.C05
